@@ -608,6 +608,9 @@ def c08_n2(ctx):
         positional = []
         for a in alts:
             at_ = expr_str(a)
+            if _fold_extreme(ctx, f, ebu2, a, 0 if ext == "min" else 1, fld, ext, reqs_var):
+                picked.append(at_[:80])
+                continue
             # the smallest start / largest end over the requests of this PDU: min / max over a map of the list
             ext_calls = [x for x in walk(a) if x[0] == "call" and (callee_name(x) or "").split("::")[-1] == ext and (callee_name(x) or "").find("Iterator") >= 0]
             if ext_calls:
@@ -666,6 +669,70 @@ def c08_n2(ctx):
             yield ok("C08-N2", key, where, "%s of %s over the requests sent in this PDU" % (ext, fld))
         else:
             yield bad("C08-N2", key, where, "%s is %s, not the %s request's %s of the requests sent in this PDU" % (nm, [expr_str(a)[:100] for a in alts], pick, fld))
+
+
+def _fold_extreme(ctx, f, ebu, a, comp, fld, ext, reqs_var):
+    """`a` is component `comp` of `acc.unwrap_or(default)` where `acc: Option<(u64, u64)>` starts as None and is, in a
+    loop over the requests of this PDU, set to Some((min(acc.0, sr.start_offset), max(acc.1, sr.end_offset))) - or to
+    (sr.start_offset, sr.end_offset) for the first request: the running minimum / maximum in one pass."""
+    a = simp(a)
+    if not (a[0] == "proj" and a[2] == ".%d" % comp):
+        return False
+    u = simp(a[1])
+    if not (u[0] == "call" and (callee_name(u) or "").split("::")[-1] == "unwrap_or" and len(u[3]) == 2):
+        return False
+    accp = simp(u[3][0])
+    if accp[0] != "place" or not re.match(r"^\w+$", accp[1]):
+        return False
+    acc = accp[1]
+    defs = [simp(d) for d in ebu.var_defs(acc)]
+    nones = [d for d in defs if d[0] == "agg" and d[3] == "None"]
+    somes = [d for d in defs if d[0] == "agg" and d[3] == "Some" and len(d[5]) == 1]
+    if len(nones) != 1 or not somes or len(nones) + len(somes) != len(defs):
+        return False
+
+    def resolve(x):
+        x = simp(x)
+        if x[0] == "place" and re.match(r"^\w+$", x[1]):
+            ds = [simp(d) for d in ebu.var_defs(x[1])]
+            if len(ds) == 1:
+                return ds[0]
+        return x
+
+    def is_item_field(x):
+        x = resolve(x)
+        tx = expr_str(x)
+        m = re.match(r"^(\w+)(\.\*)?\.%s$" % fld, tx)
+        if not m:
+            return False
+        it = [simp(d) for d in ebu.var_defs(m.group(1))]
+        if len(it) != 1:
+            return False
+        mi = re.match(r"^\(Iterator>::next\((?:&mut )?(\w+)\)\)@Some\.0$", expr_str(it[0]))
+        if not mi:
+            return False
+        src = [sstr(d) for d in ebu.var_defs(mi.group(1))]
+        return bool(src) and all(re.match(r"^IntoIterator>::into_iter\((slice::iter\()?%s\)?\)$" % re.escape(reqs_var), x_) for x_ in src)
+
+    def is_acc_comp(x):
+        return expr_str(resolve(x)) == "%s@Some.0.%d" % (acc, comp)
+
+    for sm in somes:
+        tups = sm[5][0]
+        tups = list(tups[2]) if tups[0] == "phi" else [tups]
+        for tp in tups:
+            tp = simp(tp)
+            if not (tp[0] == "agg" and tp[1] == "tuple" and len(tp[5]) == 2):
+                return False
+            c = simp(tp[5][comp])
+            if is_item_field(c):
+                continue
+            if c[0] == "call" and (callee_name(c) or "").split("::")[-1] == ext and len(c[3]) == 2:
+                x, y = c[3]
+                if (is_acc_comp(x) and is_item_field(y)) or (is_acc_comp(y) and is_item_field(x)):
+                    continue
+            return False
+    return True
 
 
 def _value_alternatives(ctx, f, ebu, v, depth=0):
